@@ -99,6 +99,10 @@ def main(dirs):
                 why = "a word starting with '=' is inserted bare and the line is parsed as a Python assignment (same root cause as for a last component starting with '=')"
             elif ".sp/" in k:
                 why = "path._normpath() strips blanks at the end of a component (same root cause as for a name ending in a blank); the subsequence match loses the rest of the path"
+            elif c["route"] == "home" and "dollar" in k.split("/")[-1]:
+                why = "a `~/`-relative candidate whose last component needs a raw string ('$' or backslash) is emitted as r'~/...', and xonsh does not expand '~' inside raw strings (the parent directory is irrelevant: it is $HOME)"
+            elif ("sq" in k.replace(".", ":").replace("/", ":").split(":") or "dq" in k.replace(".", ":").replace("/", ":").split(":")):
+                why = "the path needs a raw string ('$' or backslash somewhere in it) and contains the chosen quote character, which _quote_paths escapes with a backslash that a raw string keeps (same root cause as for a single name mixing quotes with '$' / backslash)"
             else:
                 why = None
             if why is None:
